@@ -1,5 +1,6 @@
 import DoviModel.Model.Ops
 import DoviModel.Proofs.ConvertProof
+import DoviModel.Proofs.WfPreserve
 /-! # C04 — profile conversion modes do what is documented and preserve dynamic metadata -/
 namespace Dovi.C04
 open Dovi
@@ -519,5 +520,199 @@ profile 5, and the result is no longer valid -/
 example : ∃ r r' : Rpu, r.validate = true ∧ r.convertWithMode .lossless = .ok r' ∧ r'.validate = false :=
   ⟨{ dovi_profile := 0, header := { p8DefaultHeader with vdr_rpu_profile := 0, bl_video_full_range_flag := true },
      rpu_data_mapping := some { nlq_method_idc := some 0 } }, _, by decide, rfl, by decide⟩
+
+/-! ## 3. the result encodes and re-parses: the write → parse theorem reaches every conversion result
+
+`RpuWf` (Proofs/Rpu.lean) is the hypothesis of the write → parse theorem `C03.write_parse_sound`; every parse
+result satisfies it (`C03.parsed_rpu_is_wf`).  This section carries it through `convert_with_mode`.
+
+Vocabulary (Proofs/WfPreserve.lean; all decidable):
+* `HdrSyntax h` — the header carries `el_spatial_resampling_filter_flag` / `disable_residual_flag` in its syntax:
+  `vdr_seq_info_present_flag ∧ rpu_format & 0x700 = 0`.  Every header with `bl_bit_depth_minus8 = 2` (i.e. every
+  header the validator accepts) satisfies it (`convert_side_of_valid`).
+* `IntPartsCoded r` (finding F14) — `use_prev_vdr_rpu_flag = false → coefficient_data_type = 0`: with type 1 the
+  writer omits the integer coefficient parts, so the constants the tool synthesises (MEL NLQ `vdr_in_max_int = 1`,
+  identity polynomial `0 + 1·x`) cannot be written.
+* `DmUncompressed r` (finding F15) — `vdr_dm_metadata_present_flag → reserved_zero_3bits ≠ 1`: a compressed DM
+  payload has no colour matrices; `set_p81_coeffs` changes memory only.
+* `ConvSide m r` — mode 0: nothing; mode 1: `HdrSyntax ∧ IntPartsCoded`; mode 2/3: `HdrSyntax ∧ DmUncompressed ∧
+  ((profile 5 ∨ FEL) → IntPartsCoded)`; mode 5: `HdrSyntax ∧ DmUncompressed`; mode 4: `DmUncompressed`.
+  `ConvLimits m r` = `ConvSide m r` without the `HdrSyntax` parts.
+* `Rpu.fillLinear` / `Mapping.fillLinear` — the normalisation: every EMPTY `linear_interp_flag` vector of a
+  polynomial curve is replaced by one `false` per piece (what the parser stores for pieces whose flag is not in
+  the syntax).  Identity on every `RpuWf` RPU (`normalise_id_of_wf`), and the writer emits the same bytes
+  (`normalise_writes_same`). -/
+section Reparse
+open WfPreserve
+
+/-- **1. every conversion except mode 4 keeps `RpuWf`** under `ConvSide` … -/
+theorem convert_preserves_wf (m : Mode) (r r' : Rpu) (hwf : RpuWf r) (h : r.convertWithMode m = .ok r')
+    (hm : m ≠ .to84) (hs : ConvSide m r) : RpuWf r' :=
+  convert_wf m r r' hwf h hm hs
+
+/-- … and `ConvSide` is the weakest such condition: for EVERY well-formed source (not only for the witnesses
+below) the result is `RpuWf` exactly when `ConvSide` holds -/
+theorem convert_preserves_wf_iff (m : Mode) (r r' : Rpu) (hwf : RpuWf r) (h : r.convertWithMode m = .ok r')
+    (hm : m ≠ .to84) : RpuWf r' ↔ ConvSide m r :=
+  convert_wf_iff m r r' hwf h hm
+
+/-- for a source the validator accepts, only the F14 / F15 limits remain -/
+theorem convert_side_of_valid (m : Mode) (r : Rpu) (hwf : RpuWf r) (hv : r.header.validate r.dovi_profile = true)
+    (hl : ConvLimits m r) : ConvSide m r :=
+  convSide_of_limits m r (syntax_of_validate r.header r.dovi_profile hwf.hdr hv) hl
+
+/-- **2. mode 4**: the result itself is never `RpuWf` (the static profile 8.4 mapping has EMPTY
+`linear_interp_flag` vectors, the parser yields `[false, …]`) … -/
+theorem convert84_not_wf (r r' : Rpu) (h : r.convertWithMode .to84 = .ok r') : ¬ RpuWf r' := by
+  obtain ⟨_, e⟩ := (cw_ok_iff .to84 r r').1 h
+  subst e
+  exact not_wf_to84 r
+
+/-- … its normalisation is, exactly when the DM payload is not compressed … -/
+theorem convert84_normalised_wf_iff (r r' : Rpu) (hwf : RpuWf r) (h : r.convertWithMode .to84 = .ok r') :
+    RpuWf r'.fillLinear ↔ DmUncompressed r :=
+  convert84_wf_iff r r' hwf h
+
+/-- … and `write_rpu_data` emits the same bytes for an RPU and its normalisation whenever no polynomial with an
+empty flag vector has a piece of order 0 (`Mapping.fillSafe`; true of the profile 8.4 mapping and of every
+well-formed mapping) -/
+theorem normalise_writes_same (r : Rpu) (hs : ∀ m, r.rpu_data_mapping = some m → m.fillSafe = true) :
+    writeRpu r.fillLinear = writeRpu r :=
+  writeRpu_fill r hs
+
+/-- the normalisation changes nothing on a well-formed RPU -/
+theorem normalise_id_of_wf (r : Rpu) (hwf : RpuWf r) : r.fillLinear = r :=
+  fillLinear_of_RpuWf r hwf
+
+/-- all modes at once -/
+theorem convert_normalised_wf (m : Mode) (r r' : Rpu) (hwf : RpuWf r) (h : r.convertWithMode m = .ok r')
+    (hs : ConvSide m r) : RpuWf r'.fillLinear ∧ (m ≠ .to84 → r'.fillLinear = r') :=
+  convert_wf_fill m r r' hwf h hs
+
+/-- **3. C04 "encodes, re-parses"**: for every well-formed source (every parse result), whatever
+`write_rpu_data` emits for the result of a conversion is accepted by the parser and decodes to that result —
+every header, mapping, NLQ and DM field, every extension block — up to the representation of the unset
+`linear_interp_flag`s of mode 4 (`fillLinear`, the identity for the other modes), within the limits F14 / F15
+(`ConvLimits`; the `HdrSyntax` part of `ConvSide` follows from the write having succeeded). -/
+theorem convert_result_encodes_reparses (m : Mode) (r r' : Rpu) (bytes : Bytes) (hwf : RpuWf r)
+    (h : r.convertWithMode m = .ok r') (hl : ConvLimits m r) (hw : writeRpu r' = .ok bytes) :
+    ∃ crc, parseRpu bytes = .ok { r'.fillLinear with rpu_data_crc32 := crc, modified := false } ∧
+      (m ≠ .to84 → r'.fillLinear = r') :=
+  convert_write_parse m r r' bytes hwf h hl hw
+
+/-! ### the side conditions are real limits of the tool: witnesses -/
+
+def okOr {α} [Inhabited α] (x : Res α) : α := match x with | .ok r => r | _ => default
+
+/-- `HdrSyntax`: an in-memory RPU without sequence info (the Rust fields are public; the validator would reject
+its `bl_bit_depth_minus8 = 0`, so no parsed RPU looks like this) is well formed, mode 5 accepts it and sets
+`disable_residual_flag`, which its syntax cannot carry -/
+def noSeqRpu : Rpu :=
+  { dovi_profile := 8, header := { rpu_nal_prefix := 25, rpu_type := 2, vdr_rpu_profile := 1, use_prev_vdr_rpu_flag := true } }
+
+example : RpuWf noSeqRpu ∧ ConvLimits .to81MappingPreserved noSeqRpu ∧ ¬ HdrSyntax noSeqRpu.header ∧
+    ∃ r', noSeqRpu.convertWithMode .to81MappingPreserved = .ok r' ∧ ¬ RpuWf r' :=
+  ⟨by decide, by decide, by decide, _, rfl, by decide⟩
+
+/-- F14 source: a valid, well-formed profile 7 FEL RPU with `coefficient_data_type = 1` -/
+def f14Rpu : Rpu :=
+  { dovi_profile := 7, el_type := some .fel,
+    header := { exHdrF with rpu_nal_prefix := 25, vdr_dm_metadata_present_flag := false },
+    rpu_data_mapping := some exMapF, modified := true }
+
+set_option maxRecDepth 100000 in
+theorem f14Rpu_ok : RpuWf f14Rpu ∧ f14Rpu.validate = true ∧ HdrSyntax f14Rpu.header ∧ ¬ IntPartsCoded f14Rpu := by
+  decide
+
+def f14Mel : Rpu := okOr (f14Rpu.convertWithMode .toMel)
+def f14MelBytes : Bytes := okOr (writeRpu f14Mel)
+def zeroInMax (m : Mapping) : Mapping :=
+  { m with nlq := m.nlq.map fun n => { n with vdr_in_max_int := [0, 0, 0] } }
+/-- what is on the wire after mode 1: the NLQ integer parts are gone, the EL type is FEL -/
+def f14MelWire : Rpu :=
+  { f14Mel with el_type := some .fel, rpu_data_mapping := f14Mel.rpu_data_mapping.map zeroInMax }
+
+set_option maxRecDepth 100000 in
+/-- **F14 / F12, mode 1**: the conversion succeeds, the result says MEL, it is NOT `RpuWf`, it is written without
+an error, and the written bytes decode to an FEL RPU (`vdr_in_max_int = [0, 0, 0]` instead of `[1, 1, 1]`) -/
+theorem f14_mode1_witness :
+    f14Rpu.convertWithMode .toMel = .ok f14Mel ∧ ¬ RpuWf f14Mel ∧ f14Mel.el_type = some .mel ∧
+    writeRpu f14Mel = .ok f14MelBytes ∧
+    ∃ crc, parseRpu f14MelBytes = .ok { f14MelWire with rpu_data_crc32 := crc, modified := false } := by
+  have hw : writeRpu f14Mel = .ok f14MelBytes := by decide
+  have hww : writeRpu f14MelWire = .ok f14MelBytes := by decide
+  have hwf : RpuWf f14MelWire := by decide
+  obtain ⟨crc, hp, _⟩ := parseRpu_writeRpu f14MelWire f14MelBytes hww hwf
+  exact ⟨by decide, by decide, by decide, hw, crc, hp⟩
+
+def f14P81 : Rpu := okOr (f14Rpu.convertWithMode .to81)
+def f14P81Bytes : Bytes := okOr (writeRpu f14P81)
+def noInts (m : Mapping) : Mapping :=
+  { m with curves := m.curves.map fun c =>
+      { c with polynomial := c.polynomial.map fun p => { p with poly_coef_int := [[]] } } }
+/-- what is on the wire after mode 2: the identity `0 + 1·x` without its integer parts, i.e. the zero polynomial -/
+def f14P81Wire : Rpu := { f14P81 with rpu_data_mapping := f14P81.rpu_data_mapping.map noInts }
+
+set_option maxRecDepth 100000 in
+/-- **F14, mode 2 on an FEL source**: the in-memory result carries the identity mapping, the written bytes decode
+to the all-zero polynomial -/
+theorem f14_mode2_witness :
+    f14Rpu.convertWithMode .to81 = .ok f14P81 ∧ ¬ RpuWf f14P81 ∧
+    f14P81.rpu_data_mapping = some (identityMapping exMapF) ∧
+    writeRpu f14P81 = .ok f14P81Bytes ∧
+    (∃ crc, parseRpu f14P81Bytes = .ok { f14P81Wire with rpu_data_crc32 := crc, modified := false }) ∧
+    f14P81Wire.rpu_data_mapping ≠ f14P81.rpu_data_mapping := by
+  have hw : writeRpu f14P81 = .ok f14P81Bytes := by decide
+  have hww : writeRpu f14P81Wire = .ok f14P81Bytes := by decide
+  have hwf : RpuWf f14P81Wire := by decide
+  obtain ⟨crc, hp, _⟩ := parseRpu_writeRpu f14P81Wire f14P81Bytes hww hwf
+  exact ⟨by decide, by decide, by decide, hw, ⟨crc, hp⟩, by decide⟩
+
+/-- F15 source: a valid, well-formed profile 8.1 RPU with a compressed DM header -/
+def f15Rpu : Rpu :=
+  { dovi_profile := 8, header := { p8DefaultHeader with reserved_zero_3bits := 1 },
+    rpu_data_mapping := some (identityMapping {}),
+    vdr_dm_data := some { compressed := true, cmv29 := some {} }, modified := true }
+
+theorem f15Rpu_ok : RpuWf f15Rpu ∧ f15Rpu.validate = true ∧ HdrSyntax f15Rpu.header ∧ ¬ DmUncompressed f15Rpu := by
+  decide
+
+def f15P81 : Rpu := okOr (f15Rpu.convertWithMode .to81MappingPreserved)
+def f15P81Bytes : Bytes := okOr (writeRpu f15P81)
+/-- what is on the wire after mode 5: a compressed DM payload has no colour matrices -/
+def f15P81Wire : Rpu :=
+  { f15P81 with vdr_dm_data := f15P81.vdr_dm_data.map fun d => { d with main := List.replicate 32 0 } }
+
+set_option maxRecDepth 100000 in
+/-- **F15, mode 5 on a compressed DM header**: the in-memory result carries the BT.2020 matrices, nothing of
+them is written and no error is raised -/
+theorem f15_mode5_witness :
+    f15Rpu.convertWithMode .to81MappingPreserved = .ok f15P81 ∧ ¬ RpuWf f15P81 ∧
+    (f15P81.vdr_dm_data.map fun d => d.main.take 21) = some p81Vals ∧
+    writeRpu f15P81 = .ok f15P81Bytes ∧
+    ∃ crc, parseRpu f15P81Bytes = .ok { f15P81Wire with rpu_data_crc32 := crc, modified := false } := by
+  have hw : writeRpu f15P81 = .ok f15P81Bytes := by decide
+  have hww : writeRpu f15P81Wire = .ok f15P81Bytes := by decide
+  have hwf : RpuWf f15P81Wire := by decide
+  obtain ⟨crc, hp, _⟩ := parseRpu_writeRpu f15P81Wire f15P81Bytes hww hwf
+  exact ⟨by decide, by decide, by decide, hw, crc, hp⟩
+
+/-- the hypotheses of `convert_result_encodes_reparses` are satisfiable by non-trivial values: every mode on the
+valid profile 8.1 RPU `f8Witness` (with the bit depth of a real stream), with a successful write -/
+def okRpu : Rpu := { f8Witness with header := p8DefaultHeader, modified := true }
+
+set_option maxRecDepth 100000 in
+example : RpuWf okRpu ∧ (∀ m, ConvLimits m okRpu) ∧
+    ∀ m, ∃ r' bytes, okRpu.convertWithMode m = .ok r' ∧ writeRpu r' = .ok bytes := by
+  refine ⟨by decide, fun m => by cases m <;> decide, fun m => ?_⟩
+  cases m
+  · exact ⟨okOr (okRpu.convertWithMode .lossless), okOr (writeRpu (okOr (okRpu.convertWithMode .lossless))), by decide, by decide⟩
+  · exact ⟨okOr (okRpu.convertWithMode .toMel), okOr (writeRpu (okOr (okRpu.convertWithMode .toMel))), by decide, by decide⟩
+  · exact ⟨okOr (okRpu.convertWithMode .to81), okOr (writeRpu (okOr (okRpu.convertWithMode .to81))), by decide, by decide⟩
+  · exact ⟨okOr (okRpu.convertWithMode .to84), okOr (writeRpu (okOr (okRpu.convertWithMode .to84))), by decide, by decide⟩
+  · exact ⟨okOr (okRpu.convertWithMode .to81MappingPreserved),
+      okOr (writeRpu (okOr (okRpu.convertWithMode .to81MappingPreserved))), by decide, by decide⟩
+
+end Reparse
 
 end Dovi.C04
